@@ -3,7 +3,10 @@ package bytesgen
 import (
 	"encoding/json"
 	"math/rand"
+	"os"
+	"path/filepath"
 	"reflect"
+	"strings"
 	"testing"
 )
 
@@ -122,5 +125,28 @@ func TestStructuredFamilies(t *testing.T) {
 	}
 	if d := NestingDepth([]byte("package main\n\nfunc main() {\n\tx := f(a[1], b) + 2\n}\n")); d > 6 {
 		t.Errorf("NestingDepth of ordinary code = %d", d)
+	}
+}
+
+// TestDumpStructured writes one input of every wide kind (and a few others) to
+// $BYTESGEN_DUMP as JSON files, for manual probing; it does nothing otherwise.
+func TestDumpStructured(t *testing.T) {
+	dir := os.Getenv("BYTESGEN_DUMP")
+	if dir == "" {
+		t.Skip("BYTESGEN_DUMP not set")
+	}
+	g := NewGen(LoadCorpus(RepoDir()))
+	r := rand.New(rand.NewSource(11))
+	seen := map[string]bool{}
+	for i := 0; i < 4000; i++ {
+		in := g.Wide(r)
+		key := in.Fam[:strings.LastIndexByte(in.Fam, ':')]
+		if in.Fam[len(in.Fam)-3:] != "257" && in.Fam[len(in.Fam)-3:] != "130" || seen[in.Fam] {
+			continue
+		}
+		seen[in.Fam] = true
+		b, _ := json.Marshal(in)
+		os.WriteFile(filepath.Join(dir, strings.ReplaceAll(in.Fam, ":", "_")+".json"), b, 0o644)
+		_ = key
 	}
 }
